@@ -15,24 +15,50 @@ func init() { register("C01", C01) }
 
 // C01 — every genetic operator and epoch yields only well-formed genomes.
 func C01(p *Prog, r *Run) {
-	r.Explanation = "Well-formedness is an inductive closure property over unbounded operator histories; decided are the per-operator mechanisms that preserve it: (1) who may write the gene list, node list, node index and trait list of a genome; (2) every node that enters a genome's list enters its id index too; (3) structural mutators add genes and nodes only through the ordered insertion helpers, whose two implementations agree as algorithms modulo the key and return a list containing the new element; (4) crossover: interface nodes of all three roles seeded, endpoints of a child gene are child nodes selected by the chosen gene's own endpoint ids, a copy is appended only after a non-bypassable scan for a genetically equal link (rules shared with C04); (5) add-link: target never a sensor, no gene with equal (in id, out id, recurrence) already present (shared with C05); connect-sensors adds only missing links; (6) reuse guards: the node of a reused add-node innovation is inserted only past !haveNode, a reused link is excluded by haveGene or already by the scan; (7) duplication remaps every node and trait reference by id into the copy's own lists (shared with C06); (8) a new gene carries a fresh or a completely matched innovation number (shared with C03); (9) Genesis fails only for a genome without connection genes or without output nodes (shared with C11.7); (10) trait references: every node and gene that enters a crossover child gets nil or an element of the trait list handed to NewGenome, the copy of an endpoint node is inserted into the very list that was searched for its id, mutators store only own traits, the random constructor only traits of the list it builds, and nothing else writes a trait reference. Not decided: the induction itself; that the merge walk of the crossovers emits ascending innovation numbers; array-content facts beyond the sibling agreement of the insertion helpers."
+	r.Explanation = "Well-formedness is an inductive closure property over unbounded operator histories; decided are the per-operator mechanisms that preserve it: (1) who may write the gene list, node list, node index and trait list of a genome; (2) every node that enters a genome's list enters its id index too; (3) structural mutators add genes and nodes only through the ordered insertion helpers, whose two implementations agree as algorithms modulo the key (a key handed to a shared routine as a pure field-selecting function is read as that field), return a list containing the new element, and leave each step of their descending split-index walk only as the key comparison on that path justifies (on below i under k <= key(list[i]), split i+1 under k >= key(list[i]), split i under equality); (4) crossover: interface nodes of all three roles seeded, endpoints of a child gene are child nodes selected by the chosen gene's own endpoint ids, a copy is appended only after a non-bypassable scan for a genetically equal link (rules shared with C04); (5) add-link: target never a sensor, no gene with equal (in id, out id, recurrence) already present (shared with C05); connect-sensors adds only missing links; (6) reuse guards: the node of a reused add-node innovation is inserted only past !haveNode, a reused link is excluded by haveGene or already by the scan; (7) duplication remaps every node and trait reference by id into the copy's own lists (shared with C06); (8) a new gene carries a fresh or a completely matched innovation number (shared with C03); (9) Genesis fails only for a genome without connection genes or without output nodes (shared with C11.7); (10) trait references: every node and gene that enters a crossover child gets nil or an element of the trait list handed to NewGenome, the copy of an endpoint node is inserted into the very list that was searched for its id, mutators store only own traits, the random constructor only traits of the list it builds, and nothing else writes a trait reference. Not decided: the induction itself; that the merge walk of the crossovers emits ascending innovation numbers; array-content facts beyond the sibling agreement of the insertion helpers."
 	sums := NewSummaries(p)
 	gf := func(n string) *types.Var { return p.Field(PkgG, "Genome", n) }
 
 	r.Rule("C01.1", "who may write: the gene list, node list, node index and trait list of a genome are written only by the constructors, the readers, the insertion helpers and duplicate", func() {
+		// The two functions that the pinned tree lets assemble a genome through the constructor (the checked
+		// constructor newGenome: C01.2; duplicate: C01.7 / C06.2) may as well carry the constructor's body themselves:
+		// a store that INITIALISES a genome the function has just allocated (`&Genome{…}`: one store per field in the
+		// block of the allocation, the object goes nowhere but to the caller - c06GenomeLits) is the constructor
+		// written in place, not a write to an existing genome. What is stored there is examined by those rules.
+		assemblers := map[*ssa.Function]bool{p.Func(PkgG, "Genome.duplicate"): true}
+		if ng := p.FuncOpt(PkgG, "newGenome"); ng != nil {
+			assemblers[ng] = true
+		}
+		initStores := map[*ssa.Store]bool{}
+		for fn := range assemblers {
+			lits, _ := c06GenomeLits(p, fn)
+			for _, lit := range lits {
+				for _, st := range lit.stores {
+					initStores[st] = true
+				}
+			}
+		}
 		allowed := map[string]map[string]string{
 			"Genes":       {"newGenomeWithNodeIdMap": "constructor", "newGenomeRand": "random constructor", "geneInsert": "ordered insertion", "Read": "readers build the genome they return"},
 			"Nodes":       {"newGenomeWithNodeIdMap": "constructor", "newGenomeRand": "random constructor", "nodeInsert": "ordered insertion", "addNode": "append used by the readers and the random constructor"},
 			"nodeByIdMap": {"newGenomeWithNodeIdMap": "constructor", "newGenomeRand": "random constructor"},
 			"Traits":      {"newGenomeWithNodeIdMap": "constructor", "newGenomeRand": "random constructor", "Read": "readers build the genome they return"},
 		}
+		// The declaration of a new unexported helper that nothing refers to any more (every call of it was expanded
+		// in place by the source normalisation) is never executed: its stores and calls are examined in the
+		// functions they were expanded into, which are held to the tables below. A helper that is still referred to
+		// anywhere (a call the normaliser declined, a function value) is a writer of its own.
+		pinned := PinnedFuncs()
 		for _, f := range []string{"Genes", "Nodes", "nodeByIdMap", "Traits"} {
 			var bad []string
 			n := 0
 			for _, fn := range p.SrcFuncs() {
+				if p.expandedAway(fn, pinned) {
+					continue
+				}
 				for _, st := range FieldStores(fn, gf(f)) {
 					n++
-					if _, ok := allowed[f][fn.Name()]; !ok {
+					if _, ok := allowed[f][fn.Name()]; !ok && !initStores[st] { // initStores: a genome assembled in place, see above
 						bad = append(bad, FuncName(fn)+" at "+p.Pos(st.Pos()))
 					}
 				}
@@ -42,6 +68,9 @@ func C01(p *Prog, r *Run) {
 		// the index map itself is updated only by mapNodeId and the constructor that builds it
 		var bad []string
 		for _, fn := range p.SrcFuncs() {
+			if p.expandedAway(fn, pinned) {
+				continue
+			}
 			tm := NewTermer(fn)
 			Instrs(fn, func(_ *ssa.BasicBlock, _ int, in ssa.Instruction) {
 				if mu, ok := in.(*ssa.MapUpdate); ok {
@@ -57,7 +86,7 @@ func C01(p *Prog, r *Run) {
 		var users []string
 		addNode := p.Func(PkgG, "Genome.addNode")
 		for _, fn := range p.SrcFuncs() {
-			if len(CallsTo(fn, addNode)) > 0 && fn.Name() != "Read" && fn.Name() != "addNodes" && fn.Name() != "newGenomeRand" {
+			if len(CallsTo(fn, addNode)) > 0 && fn.Name() != "Read" && fn.Name() != "addNodes" && fn.Name() != "newGenomeRand" && !p.expandedAway(fn, pinned) {
 				users = append(users, FuncName(fn))
 			}
 		}
@@ -105,11 +134,13 @@ func C01(p *Prog, r *Run) {
 		ng := p.Func(PkgG, "newGenome")
 		ntm := NewTermer(ng)
 		okNg, okPass := false, false
+		var indexMap ssa.Value // the map that receives index[node.Id] = node
 		Instrs(ng, func(_ *ssa.BasicBlock, _ int, in ssa.Instruction) {
 			if mu, ok := in.(*ssa.MapUpdate); ok {
 				k, v := ntm.Of(mu.Key), ntm.Of(mu.Value)
 				if v.Op == "elem" && isParamIdx(v.Args[0], 2) && k.Op == "field" && k.Name == "Id" && k.Args[0].String() == v.String() {
 					okNg = true
+					indexMap = stripPtr(mu.Map)
 					// on every iteration: the update dominates every back edge of its loop
 					if l := InnermostLoop(Loops(ng), mu.Block()); l != nil {
 						for _, lb := range l.Latch {
@@ -123,10 +154,33 @@ func C01(p *Prog, r *Run) {
 				}
 			}
 		})
-		for _, c := range CallsTo(ng, p.Func(PkgG, "newGenomeWithNodeIdMap")) {
-			a := callArgTerms(ntm, c.Common())
-			okPass = isParamIdx(a[2], 2) && a[5].Op == "make"
+		// the genome newGenome returns stores that node list and that index: handed to the field-wise constructor,
+		// or stored into the genome newGenome allocates itself (the constructor written in place)
+		assembled := map[ssa.Value]bool{}
+		sitesOK := true
+		if ctor := p.FuncOpt(PkgG, "newGenomeWithNodeIdMap"); ctor != nil {
+			for _, c := range CallsTo(ng, ctor) {
+				a := callArgTerms(ntm, c.Common())
+				if !(isParamIdx(a[2], 2) && a[5].Op == "make") {
+					sitesOK = false
+				}
+				if c.Value() != nil {
+					assembled[c.Value()] = true
+				}
+			}
 		}
+		lits, otherLits := c06GenomeLits(p, ng)
+		for _, lit := range lits {
+			nodes, idx := lit.vals[gf("Nodes")], lit.vals[gf("nodeByIdMap")]
+			_, isMake := indexMap.(*ssa.MakeMap)
+			if !(nodes != nil && idx != nil && isParamIdx(ntm.Of(nodes), 2) && isMake && stripPtr(idx) == indexMap) {
+				sitesOK = false
+			}
+			assembled[lit.alloc] = true
+		}
+		// every genome newGenome returns is one of those
+		outside, _ := c06ReturnedOutside(ng, 0, assembled)
+		okPass = len(assembled) > 0 && sitesOK && len(outside) == 0 && len(otherLits) == 0
 		okLoop := false
 		for _, l := range Loops(ng) {
 			if loopRangesOver(ntm, l, "p2") {
@@ -155,6 +209,7 @@ func C01(p *Prog, r *Run) {
 	r.Rule("C01.3", "ordered insertion: structural mutators add genes and nodes only through geneInsert / nodeInsert; both helpers are the same algorithm modulo the key and return a list containing the new element", func() {
 		r.c01OrderedInsertion()
 		r.c01ScanBound()
+		r.c01SplitDecision()
 		r.c01SinglePointOrder()
 	})
 
@@ -220,7 +275,9 @@ func C01(p *Prog, r *Run) {
 		tm := NewTermer(fn)
 		n := 0
 		for _, c := range CallsTo(fn, p.Func(PkgN, "NewNNode")) {
-			if f, _, ok := recordField(tm.Of(c.Common().Args[0])); !ok || f != "NewNodeId" {
+			// (terms as seen where the node is created: a record handed out of the scan as `rec, found` / a pointer is the
+			// record itself where it is known to have been found)
+			if f, _, ok := recordField(NewTermerAt(fn, c.Block()).Of(c.Common().Args[0])); !ok || f != "NewNodeId" {
 				continue
 			}
 			n++
@@ -350,7 +407,9 @@ func (r *Run) c01OrderedInsertion() {
 			s = strings.ReplaceAll(s, "network.NNode", "T")
 			return s
 		}
-		T := func(v ssa.Value) string { return CanonTermWith(tm.Of(v), norm) }
+		// a call of a key function that merely selects a field of its argument stands for that field (both helpers
+		// may hand their key to one shared routine as a function: robust_c01.go, resolveProjections)
+		T := func(v ssa.Value) string { return CanonTermWith(resolveProjections(tm.Of(v)), norm) }
 		// conditions in positive canonical form (operands ordered, complements removed); the blocks are then
 		// numbered in depth-first order over the successors as the canonical condition orders them, so that
 		// `a >= b` / `b <= a` / `!(a < b)` with exchanged branches are the same step
@@ -359,7 +418,7 @@ func (r *Run) c01OrderedInsertion() {
 		for _, b := range fn.Blocks {
 			sc := append([]*ssa.BasicBlock(nil), b.Succs...)
 			if iff, ok := b.Instrs[len(b.Instrs)-1].(*ssa.If); ok {
-				c, neg := CanonCondWith(tm.Of(iff.Cond), norm)
+				c, neg := CanonCondWith(resolveProjections(tm.Of(iff.Cond)), norm)
 				if neg {
 					sc[0], sc[1] = sc[1], sc[0]
 				}
@@ -420,6 +479,9 @@ func (r *Run) c01OrderedInsertion() {
 					n, _ := calleeName(x.Common())
 					if n == "dyn" || strings.HasPrefix(n, "fmt.") {
 						continue // logging
+					}
+					if _, isProj := projectionCall(x.Common()); isProj {
+						continue // a field selection, listed (like every load) where its value is used
 					}
 					var a []string
 					for _, v := range x.Common().Args {
